@@ -14,6 +14,7 @@ import (
 type Elem struct {
 	Name string
 	V    *big.Rat
+	A    *big.Rat // magnitude Σ|terms| that bounds the floating-point error of V (nil: |V|)
 }
 
 // Resolved maps every recipe of the book to its elements sorted by name.
@@ -64,7 +65,7 @@ func Resolve(b gen.Book) Resolved {
 		m := val(name)
 		es := make([]Elem, 0, len(m))
 		for x, v := range m {
-			es = append(es, Elem{x, v})
+			es = append(es, Elem{Name: x, V: v})
 		}
 		sort.Slice(es, func(i, j int) bool { return es[i].Name < es[j].Name })
 		out[name] = es
@@ -146,7 +147,8 @@ func Chain(b gen.Book) (longest int, cyclic bool) {
 type Food struct {
 	Name        string
 	Qty         *big.Rat
-	Ingredients []Elem // qty × resolved element, or {food: qty}
+	QtyAbs      *big.Rat // Σ |logged quantities| merged into Qty
+	Ingredients []Elem   // qty × resolved element, or {food: qty}
 	Defined     bool
 }
 
@@ -179,12 +181,24 @@ func MergeDay(d gen.Day) []gen.Ent {
 	return out
 }
 
-// Account computes the register view of one day.
-func Account(d gen.Day, res Resolved) DayAcc {
+// Account computes the register view of one day. The optional abs (AbsPaths of the book) makes the
+// magnitudes A / Abs bound the rounding error of values that are themselves sums of cancelling terms.
+func Account(d gen.Day, res Resolved, absOpt ...map[string]map[string]*big.Rat) DayAcc {
 	acc := DayAcc{Date: d.Date}
+	var abs map[string]map[string]*big.Rat
+	if len(absOpt) > 0 {
+		abs = absOpt[0]
+	}
+	qabs := map[string]*big.Rat{}
+	for _, e := range d.Ents {
+		if qabs[e.Name] == nil {
+			qabs[e.Name] = new(big.Rat)
+		}
+		qabs[e.Name].Add(qabs[e.Name], new(big.Rat).Abs(e.Val.R))
+	}
 	type tt struct{ pos, neg, abs *big.Rat }
 	tot := map[string]*tt{}
-	add := func(name string, v *big.Rat) {
+	add := func(name string, v, mag *big.Rat) {
 		t := tot[name]
 		if t == nil {
 			t = &tt{new(big.Rat), new(big.Rat), new(big.Rat)}
@@ -195,20 +209,24 @@ func Account(d gen.Day, res Resolved) DayAcc {
 		} else {
 			t.pos.Add(t.pos, v)
 		}
-		t.abs.Add(t.abs, new(big.Rat).Abs(v))
+		t.abs.Add(t.abs, mag)
 	}
 	for _, e := range MergeDay(d) {
-		f := Food{Name: e.Name, Qty: e.Val.R}
+		f := Food{Name: e.Name, Qty: e.Val.R, QtyAbs: qabs[e.Name]}
 		if es, ok := res[e.Name]; ok {
 			f.Defined = true
 			for _, x := range es {
 				p := new(big.Rat).Mul(e.Val.R, x.V)
-				f.Ingredients = append(f.Ingredients, Elem{x.Name, p})
-				add(x.Name, p)
+				mag := new(big.Rat).Abs(p)
+				if abs != nil && abs[e.Name] != nil && abs[e.Name][x.Name] != nil {
+					mag = new(big.Rat).Mul(qabs[e.Name], abs[e.Name][x.Name])
+				}
+				f.Ingredients = append(f.Ingredients, Elem{x.Name, p, mag})
+				add(x.Name, p, mag)
 			}
 		} else {
-			f.Ingredients = []Elem{{e.Name, e.Val.R}}
-			add(e.Name, e.Val.R)
+			f.Ingredients = []Elem{{e.Name, e.Val.R, qabs[e.Name]}}
+			add(e.Name, e.Val.R, qabs[e.Name])
 		}
 		acc.Foods = append(acc.Foods, f)
 	}
